@@ -74,6 +74,12 @@ def make_specs(ctx):
                                                 else "tpl/" + os.path.basename(ini)[:-4], d, e, cf, zero)
             out.append(Spec(name, ini, ov, horizon=1500, tags=("c17",),
                             info={"c17": {"interval": delta, "zero": zero, "end": endt}}))
+            if ini.endswith("coulomb_atoms/power_bounded.ini") or ini.endswith("dipoles/dipole_motion.ini"):
+                # the same run "late in a very long run": all lazy-deletion counters of the heap scheduler a few trashes
+                # below 2^32, so that the overflow clean-up of the C heap happens while sampling / end-of-run events wait
+                out.append(Spec(name + "@2^32", ini, ov, horizon=1500, tags=("c17",),
+                                info={"c17": {"interval": delta, "zero": zero, "end": endt},
+                                      "preset_counters": 2 ** 32 - 3}))
     return out
 
 
